@@ -55,6 +55,8 @@ pub struct Inner {
     live: usize,
     /// actor parked inside the source's next() (holding the turnstile)
     held: Option<usize>,
+    /// hold mode: parked workers are always scheduled before the spawning thread
+    pub workers_first: bool,
     grant_time: Instant,
     pub blocked_seen: u32,
 }
@@ -107,13 +109,14 @@ pub fn init() {
         max_live: 0,
         live: 0,
         held: None,
+        workers_first: false,
         grant_time: Instant::now(),
         blocked_seen: 0,
     });
 }
 
 /// Prepares the scheduler for one program.
-pub fn begin_program(sched: bool, script: Vec<u32>, seed: u64, sticky: f64, log_calls: bool) {
+pub fn begin_program(sched: bool, script: Vec<u32>, seed: u64, sticky: f64, log_calls: bool, workers_first: bool) {
     let mut g = lock();
     let s = g.as_mut().expect("init");
     s.sched = sched;
@@ -134,6 +137,7 @@ pub fn begin_program(sched: bool, script: Vec<u32>, seed: u64, sticky: f64, log_
     s.live = 0;
     s.held = None;
     s.blocked_seen = 0;
+    s.workers_first = workers_first;
 }
 
 pub fn end_program() -> (Vec<u32>, Option<(usize, u32, Vec<u32>)>, u32, usize) {
@@ -206,6 +210,9 @@ fn pick_next(s: &mut Inner) {
         if c.len() > 1 {
             c.retain(|x| *x as usize != h);
         }
+    }
+    if s.workers_first && c.iter().any(|x| *x != 0) {
+        c.retain(|x| *x != 0);
     }
     if c.is_empty() {
         s.granted = None;
